@@ -1,4 +1,5 @@
 import BornoModel.Eval
+import BornoModel.Lemmas.Interchange
 /-! # C16 — a value behaves the same however it was produced
 
 The model has exactly one constructor of `Val` per value kind (`Val.num` for every number,
@@ -37,5 +38,38 @@ theorem string_producers (s t : List Char) (σ : Store) :
 theorem consumers_depend_on_value_only (σ : Store) (v w : Val) (h : v = w) (f : Nat) :
     truthy v = truthy w ∧ toNumber v = toNumber w ∧ toInt64 v = toInt64 w ∧
     stringify σ f v = stringify σ f w ∧ (∀ u, valEq σ v u = valEq σ w u) := by subst h; simp
+
+/-- **a value behaves the same however it was produced, in every context**: two producers that, in every scope
+    and store, come to the same result (the same value, the same effects) can stand in for each other in any
+    operand, argument, element, subscript, callee, receiver or assigned-value position of any enclosing expression,
+    nested to any depth, without changing what the whole comes to (from some step budget on) -/
+theorem producers_interchangeable_in_every_context (P : Platform) (C : Ctx) (e e' : Expr) (h : EvEq P e e') :
+    EvEq P (C.plug e) (C.plug e') := plug_congr P C h
+
+/-- … and so in the statements that consume a value: print, expression statement, declaration, return, condition -/
+theorem producers_interchangeable_in_statements (P : Platform) (C : Ctx) (e e' : Expr) (h : EvEq P e e') (n : Name) (l : Nat)
+    (t : Stmt) (el : Option Stmt) :
+    EvS P (.print (C.plug e)) (.print (C.plug e')) ∧ EvS P (.expr (C.plug e)) (.expr (C.plug e')) ∧
+    EvS P (.var ⟨n, l, some (C.plug e)⟩) (.var ⟨n, l, some (C.plug e')⟩) ∧
+    EvS P (.returnS l (some (C.plug e))) (.returnS l (some (C.plug e'))) ∧
+    EvS P (.ifS (C.plug e) t el) (.ifS (C.plug e') t el) :=
+  have hc := plug_congr P C h
+  ⟨evS_print P hc, evS_expr P hc, evS_var P n l hc, evS_return P l hc, evS_ifCond P t el hc⟩
+
+/-- two concrete producers of one string: the literal, and the concatenation of its halves -/
+theorem literal_and_concatenation_agree (P : Platform) (s t : List Char) (l1 l2 l3 l4 : Nat) :
+    EvEq P (.binary (.literal (.str s) l1) .PLUS l2 (.literal (.str t) l3)) (.literal (.str (s ++ t)) l4) := by
+  intro env repl σ
+  refine ⟨2, fun F hF => ?_⟩
+  obtain ⟨F', rfl⟩ : ∃ F', F = F' + 2 := ⟨F - 2, by omega⟩
+  cases hs : σ.hadError with
+  | true => rw [evalE_guard P _ _ env repl σ hs, evalE_guard P _ _ env repl σ hs]
+  | false =>
+    simp [evalE, guardErr, hs, ER.seq, Res.bind, binop, opAdd, litVal, stringifyOperand]
+
+/-- hence, for instance, inside any context -/
+example (P : Platform) (C : Ctx) (s t : List Char) :
+    EvEq P (C.plug (.binary (.literal (.str s) 1) .PLUS 1 (.literal (.str t) 1))) (C.plug (.literal (.str (s ++ t)) 1)) :=
+  plug_congr P C (literal_and_concatenation_agree P s t 1 1 1 1)
 
 end Borno.Props.C16
